@@ -672,7 +672,15 @@ func fieldOfParam(p *prover, par *ssa.Parameter, name string) ssa.Value {
 // set to a non-nil slice before the function can return.
 func c02RowStorage(c *Ctx, row *types.Named, cells *types.Var) {
 	r := c.R
-	isSep := c.Field(row, "isSeparator")
+	// the flag IsSeparator() reports (found through the method, not by name)
+	var isSep *types.Var
+	if m := c.Method(row, true, "IsSeparator"); m != nil {
+		for _, ret := range returnsOf(m) {
+			if f, _ := loadedField(results(ret)[0]); f != nil {
+				isSep = f
+			}
+		}
+	}
 	n := 0
 	for _, fn := range c.LibFuncs() {
 		if funcPkgPath(fn) != modPath {
@@ -696,7 +704,7 @@ func c02RowStorage(c *Ctx, row *types.Named, cells *types.Var) {
 					if !isSt || st.Addr != ssa.Value(fa) {
 						continue
 					}
-					if f == isSep {
+					if isSep != nil && f == isSep {
 						if b, isB := constBool(st.Val); isB && b {
 							sep = true
 						}
